@@ -220,6 +220,21 @@ reg("C12", "exploration",
     "DESIGN.md section 3, C12")
 
 
+reg("C13", "fault_enumeration",
+    "Fault enumeration in virtual time, complete for its stated space: ALL sequences of per-attempt network outcomes {reply, "
+    "zero-length reply, nothing, reply after the timeout, duplicated reply, ICMP error (error_received), connection lost} for "
+    "retries 1..3 (quick) / 1..4 (thorough) x timeouts {0.5, 1, 2.5, 6} are played against the real send_udp and "
+    "SNMPClientProtocol -- directly and through Client.get with configured timeout / retries -- on an event loop whose clock is "
+    "virtual and whose datagram endpoints are scripted and recorded. Oracle (model of attempts): at most `retries` endpoints, "
+    "exactly one byte-identical sendto per endpoint, the first in-time reply returned unmodified at virtual time (k-1)*T+d, Timeout "
+    "at exactly retries*T, OS errors propagate or count as unanswered, every transport closed or aborted once the call has "
+    "returned or raised and the loop has drained, no exception inside loop callbacks. A real-socket tier on 127.0.0.1 (scripted "
+    "responder, closed ports) checks datagram counts, results, lower time bounds and /proc/self/fd accounting.",
+    "Virtual tier relies on a model of asyncio's datagram transport (no delivery after close/abort; connection_lost via call_soon); the loopback tier keeps the model honest. If create_datagram_endpoint is no longer used the virtual tier reports itself inconclusive.",
+    "exhaustive enumeration of network-outcome sequences on a virtual-time event loop + real loopback sockets",
+    "DESIGN.md section 3, C13")
+
+
 def main():
     present = sorted(os.path.basename(p)[:3].upper()
                      for p in glob.glob(os.path.join(VERIF, "checks", "c[0-9][0-9]_*.py")))
